@@ -814,6 +814,11 @@ def rand_c08(seed, tier, cases=None):
         shapes = _shapes_for(kind)
         out.append(dict(fam="C08", kind=kind, scribble=True, calls=[dict(mtu=40, shape=shapes[(c * 5) % len(shapes)], len=1 + (c * 13) % 120, salt=c % 200) for c in range(250)], **{"class": kind + "_long_run"}))
         out.append(dict(fam="C08", kind=kind, scribble=True, calls=[dict(mtu=11, shape=shapes[-1], len=6000, salt=2), dict(mtu=11, shape="pat", len=6000, salt=3)], **{"class": kind + "_many_fragments"}))
+    # two H264 parameter sets that each fit a 16-bit size field but not together, handed over in separate calls
+    for kind in ("h264",):
+        mk = lambda t, n: [0, 0, 0, 1, 0x60 | t] + [1 + (i * 7) % 250 for i in range(n - 1)]
+        out.append(dict(fam="C08", kind=kind, scribble=True, calls=[dict(mtu=1200, shape="raw", len=33004, salt=0, bytes=mk(7, 33000)), dict(mtu=1200, shape="raw", len=32604, salt=0, bytes=mk(8, 32600)),
+                                                                   dict(mtu=1200, shape="raw", len=44, salt=0, bytes=mk(5, 40))], **{"class": kind + "_giant_parameter_sets"}))
     return out
 
 
@@ -999,6 +1004,11 @@ def rand_c10(seed, tier, cases=None):
         if pending:
             calls.append(dict(units=[pending.pop(), _nal(5, 2, 6, rng)], scs=[3, 3]))
         out.append(dict(fam="C10", kind="payloader", mtu=mtu, stapa=stap, calls=calls, **{"class": "rand_payloader"}))
+    # two parameter sets that each fit a 16-bit size field but not together (sum beyond 65535), in one call and across calls
+    sps_big, pps_big = _nal(7, 3, 33000, rng), _nal(8, 3, 32600, rng)
+    out.append(dict(fam="C10", kind="payloader", mtu=1200, stapa=True, calls=[dict(units=[sps_big, pps_big, _nal(5, 3, 40, rng)], scs=[4, 4, 4])], **{"class": "giant_parameter_sets"}))
+    out.append(dict(fam="C10", kind="payloader", mtu=1200, stapa=True, calls=[dict(units=[sps_big], scs=[4]), dict(units=[pps_big], scs=[4]), dict(units=[_nal(1, 2, 40, rng)], scs=[3])],
+                    **{"class": "giant_parameter_sets"}))
     # a unit cut into 800 fragments, and 300 calls on one payloader (parameter sets now and then)
     out.append(dict(fam="C10", kind="payloader", mtu=7, stapa=True, calls=[dict(units=[_nal(5, 3, 4000, rng), _nal(1, 2, 9, rng)], scs=[4, 3])], **{"class": "many_fragments"}))
     for stap in (True, False):
@@ -1116,7 +1126,8 @@ def rand_c14(seed, tier, cases=None):
     out = []
     def unit(t, n):
         return [t << 1, 1] + [(i * 7) % 250 + 1 for i in range(n - 2)]
-    for mtu, units in ((1200, [unit(32, 24), unit(19, 66236)]), (1200, [unit(19, 70000)]), (65535, [unit(1, 65536)]), (65535, [unit(33, 9), unit(1, 65534)])):
+    for mtu, units in ((1200, [unit(32, 24), unit(19, 66236)]), (1200, [unit(19, 70000)]), (65535, [unit(1, 65536)]), (65535, [unit(33, 9), unit(1, 65534)]),
+                       (65535, [unit(32, 33000), unit(33, 32600), unit(19, 40)]), (65535, [unit(32, 30000), unit(33, 30000), unit(19, 5000)])):
         out.append(dict(fam="C14", kind="payload", valid=True, mtu=mtu, donl=False, skipagg=False, calls=[dict(units=units, scs=[4] * len(units))], **{"class": "giant_unit"}))
     for _ in range(2000 if tier == "quick" else 20000 * TH):
         mtu = rng.choice([4, 5, 6, 7, 9, 13, 20, 50, 100, 1200, rng.randint(4, 300)])
@@ -1129,8 +1140,9 @@ def rand_c14(seed, tier, cases=None):
             units.append([t << 1 | layer >> 5, (layer & 31) << 3 | tid] + [rng.randint(1, 255) for _ in range(n - 2)])
         out.append(dict(fam="C14", kind="payload", valid=True, mtu=mtu, donl=rng.random() < 0.3, skipagg=rng.random() < 0.4,
                         calls=[dict(units=units, scs=[rng.choice([3, 4]) for _ in units])], **{"class": "rand_payload"}))
-    # a unit cut into 800+ fragments, and 300 calls on one payloader (the DONL counter runs on)
+    # a unit cut into 800+ fragments, 300 calls on one payloader (the DONL counter runs on), and 300 units in ONE aggregation packet
     for donl in (False, True):
+        out.append(dict(fam="C14", kind="payload", valid=True, mtu=4000, donl=donl, skipagg=False, calls=[dict(units=[unit(1, 4) for _ in range(300)], scs=[3] * 300)], **{"class": "many_units_one_packet"}))
         out.append(dict(fam="C14", kind="payload", valid=True, mtu=9, donl=donl, skipagg=False, calls=[dict(units=[unit(19, 4000), unit(1, 5)], scs=[4, 3])], **{"class": "many_fragments"}))
         out.append(dict(fam="C14", kind="payload", valid=True, mtu=40, donl=donl, skipagg=False,
                         calls=[dict(units=[unit(1, 3 + (j * 7) % 70)] + ([unit(32, 6), unit(33, 5)] if j % 40 == 3 else []), scs=[3] * (3 if j % 40 == 3 else 1)) for j in range(300)],
@@ -1161,7 +1173,9 @@ prop(dict(
 
 
 # ---------------------------------------------------------------- C13
-def _obu_stream(obus):
+def _obu_stream(obus, pad=0):
+    """The byte stream handed to the payloader; pad > 0 writes every obu_size as a non-minimal LEB128 number
+    (pad extra bytes: continuation bits set, zero digits), which the AV1 bitstream syntax allows."""
     out = []
     for o in obus:
         hdr = [o["type"] << 3 | (4 if o["ext"] else 0) | (2 if o["hassize"] else 0) | o["r1"]]
@@ -1176,7 +1190,11 @@ def _obu_stream(obus):
                 if n:
                     out.append(b | 0x80)
                 else:
-                    out.append(b)
+                    if pad:
+                        out.append(b | 0x80)
+                        out += [0x80] * (pad - 1) + [0x00]
+                    else:
+                        out.append(b)
                     break
         out += o["payload"]
     return out
@@ -1202,12 +1220,19 @@ def rand_c13(seed, tier, cases=None):
         if rng.random() < 0.3:
             obus[-1]["hassize"] = False
         out.append(dict(fam="C13", kind="payload", valid=True, mtu=mtu, obus=obus, stream=_obu_stream(obus), **{"class": "rand_obus"}))
+        if _ % 10 == 0 and all(o["hassize"] for o in obus):
+            out.append(dict(fam="C13", kind="payload", valid=True, mtu=mtu, obus=obus, stream=_obu_stream(obus, pad=1 + _ % 3), **{"class": "rand_obus_padded_size_field"}))
     # an OBU cut into 600+ packets, and 40 OBUs in one call
     many = [dict(type=6, ext=False, tid=0, sid=0, r3=0, r1=0, hassize=True, payload=[(i * 7) % 251 for i in range(5000)]),
             dict(type=6, ext=False, tid=0, sid=0, r3=0, r1=0, hassize=True, payload=[1, 2, 3])]
     out.append(dict(fam="C13", kind="payload", valid=True, mtu=10, obus=many, stream=_obu_stream(many), **{"class": "many_fragments"}))
     lots = [dict(type=6 if i else 1, ext=i % 9 == 8, tid=0, sid=0, r3=0, r1=0, hassize=True, payload=[(i + k) % 251 for k in range(1 + (i * 5) % 40)]) for i in range(40)]
     out.append(dict(fam="C13", kind="payload", valid=True, mtu=64, obus=lots, stream=_obu_stream(lots), **{"class": "many_obus"}))
+    # more than 256 elements in ONE packet (W = 0), after a fragmented OBU and from a fresh packet
+    tiny = [dict(type=6, ext=False, tid=0, sid=0, r3=0, r1=0, hassize=True, payload=[1 + i % 250]) for i in range(300)]
+    for head in ([many[0]], []):
+        obs = head + tiny
+        out.append(dict(fam="C13", kind="payload", valid=True, mtu=4000, obus=obs, stream=_obu_stream(obs), **{"class": "many_obus_one_packet"}))
     return out
 
 
